@@ -14,3 +14,4 @@ import RosuModel.Props.C20IeeeErr
 import RosuModel.Props.C20IeeeErr2
 import RosuModel.Props.C20IeeeForms
 import RosuModel.Props.C20IeeeFormsOrder
+import RosuModel.Props.C20IeeeOrder2
